@@ -194,7 +194,7 @@ def tier_len(rng):
 
 
 def plan(tier, seed):
-    n = tier_value(tier, 600, 40000)
+    n = tier_value(tier, 600, 200000)
     shards = tier_value(tier, 4, 14)
     return [dict(first=i * (n // shards), count=n // shards, budget_s=tier_value(tier, 20, 120)) for i in range(shards)]
 
